@@ -22,6 +22,8 @@ pub mod server_error;
 pub mod state;
 pub mod streaming;
 pub mod tcp;
+#[cfg(feature = "iggy_verif")]
+pub mod verif;
 pub mod versioning;
 
 const VERSION: &str = env!("CARGO_PKG_VERSION");
